@@ -3,7 +3,7 @@ use rusty_pc::*;
 
 use crate::input::StringView;
 use crate::pc_specific::*;
-use crate::tokens::comma_ws;
+use crate::tokens::{any_symbol_of, any_token_of, comma_ws};
 use crate::{ExpressionPos, ExpressionTrait, Expressions, Keyword, ParserError};
 
 /// Parses an expression.
@@ -41,14 +41,20 @@ pub fn csv_expressions_first_guarded()
 }
 
 /// Parses an expression that is either preceded by whitespace
-/// or is a parenthesis expression.
+/// or starts with a parenthesis or a minus sign (which cannot be
+/// taken for a part of the keyword before the expression).
+///
+/// The parenthesis is only the start of the expression:
+/// `NOT(A) + B` is `NOT ((A) + B)`, and `7 MOD(5) * 2` is `7 MOD ((5) * 2)`.
 ///
 /// ```text
-/// <expr-in-parenthesis> |
-/// <ws> <expr>
+/// <ws> <expr> |
+/// <expr-starting-with-parenthesis-or-minus>
 /// ```
 pub fn ws_expr_pos_p() -> impl Parser<StringView, Output = ExpressionPos, Error = ParserError> {
-    super::parenthesis::parser().or(lead_ws(expression_pos_p()))
+    whitespace_ignoring()
+        .or(any_symbol_of!('(', '-').map_to_unit().peek())
+        .and_keep_right(expression_pos_p())
 }
 
 /// Parses an expression that is either surrounded by whitespace
